@@ -57,6 +57,22 @@ def gen_case(rng, name, ops, classes=None, shapes=None, reps=None, deriv=False, 
     return {'op': name, 'operands': opnds}
 
 
+def gen_alias_case(rng, name, ops, classes):
+    """both operands are overlapping views of ONE parent object: operand 0 = parent[:-1],
+    operand 1 = parent[1:] (their mask arrays share memory without being the same object)"""
+    n = rng.choice([2, 3, 4])
+    c = gen_case(rng, name, ops, classes, [(n,), (n,)], ['mix', 'mix'])
+    a, b = c['operands']
+    if a['cls'] != b['cls'] or a['kind'] != b['kind'] or isinstance(a['mask'], bool) or isinstance(b['mask'], bool):
+        return None
+    extra = b['vals'][-1]
+    b['vals'] = [list(v) for v in a['vals'][1:]] + [extra]
+    b['mask'] = list(a['mask'][1:]) + [b['mask'][-1]]
+    a['mrep'] = b['mrep'] = 'mix'
+    c['alias'] = 'views'
+    return c
+
+
 def corpus_cases():
     """hand-written regression cases (earlier defects of this family)"""
     S = lambda v, m, shape=(): {'cls': 'Scalar', 'shape': list(shape), 'kind': 'float',      # noqa: E731
@@ -95,6 +111,7 @@ def gen_cases(rng, tier, ops):
                 cases.append(gen_case(rng, n, ops, classes, [tuple(s) for s in sh]))
         for _ in range(12000):
             cases.append(gen_case(rng, rng.choice(names), ops))
+        cases.extend(alias_cases(rng, ops, names, 2))
         return cases
     # thorough: per (operation, class tuple): every leading-shape pair with seeded mask representations,
     # and every pair of mask representations on four shape pairs
@@ -124,7 +141,22 @@ def gen_cases(rng, tier, ops):
             else:
                 for _ in range(300):
                     cases.append(gen_case(rng, n, ops, classes))
+    cases.extend(alias_cases(rng, ops, names, 12))
     return cases
+
+
+def alias_cases(rng, ops, names, per):
+    out = []
+    for n in names:
+        o = ops[n]
+        for classes in o['cls']:
+            if len(classes) == 2 and classes[0] == classes[1] and classes[0] not in ('number', 'ndarray', 'marray') \
+                    and not o.get('inplace'):
+                for _ in range(per):
+                    c = gen_alias_case(rng, n, ops, classes)
+                    if c is not None:
+                        out.append(c)
+    return out
 
 
 def nontrivial(case, ref):
